@@ -586,18 +586,31 @@ def rule_rot_hash(ctx) -> None:
     if len(sl) != 1:
         raise AnalysisError("C15.rot-hash: table slice in RotMetaEcc.parse not found")
     lo, hi = A.inline_locals(pa.node, sl[0].slice.lower), A.inline_locals(pa.node, sl[0].slice.upper)
+    # the index variable: the loop / comprehension target the slice sits in
+    ivar = None
+    for anc in A.ancestors(sl[0]):
+        if isinstance(anc, ast.For) and isinstance(anc.target, ast.Name):
+            ivar = anc.target.id
+            break
+        if isinstance(anc, (ast.ListComp, ast.GeneratorExp)) and len(anc.generators) == 1 and isinstance(anc.generators[0].target, ast.Name):
+            ivar = anc.generators[0].target.id
+            break
+    if ivar is None:
+        raise AnalysisError("C15.rot-hash: index variable of the table slice in RotMetaEcc.parse not found")
     probs = []
     for bits in sorted(ecc):
         h = math.ceil(bits / 8)
         dg = labels[want_label(bits)]
         for idx in (0, 1, 3):
-            a = subst_fold(ctx, lo, {"rot_item_idx": idx, "cls.HASH_SIZE": h}, pa.module, pa.cls)
-            b = subst_fold(ctx, hi, {"rot_item_idx": idx, "cls.HASH_SIZE": h}, pa.module, pa.cls)
+            a = subst_fold(ctx, lo, {ivar: idx, "cls.HASH_SIZE": h}, pa.module, pa.cls)
+            b = subst_fold(ctx, hi, {ivar: idx, "cls.HASH_SIZE": h}, pa.module, pa.cls)
             if (a, b) != (idx * dg, (idx + 1) * dg):
                 probs.append(f"P-{bits}: item {idx} read from [{a}:{b}] but export writes {dg}-byte digests at [{idx * dg}:{(idx + 1) * dg}]")
                 break
     ex = ctx.own(DC, "RotMetaEcc", "export_crtk_table")
-    ex_ok = "for rot_item in self.rot_items: ctrk_table += rot_item" in norm(ex.node).replace("\n", " ").replace("    ", "") or "ctrk_table += rot_item" in norm(ex.node)
+    tx = norm(ex.node)
+    concat = "ctrk_table += rot_item" in tx or "b''.join(self.rot_items)" in tx or "join(rot_item for rot_item in self.rot_items)" in tx
+    ex_ok = concat and "len(self.rot_items) > 1" in tx
     chk.decide(not probs and ex_ok and "flags = RotMetaFlags.parse(data[:4])" in norm(pa.node) and "crt_table = data[4:]" in norm(pa.node) and "if flags.cnt_root_cert > 1:" in norm(pa.node),
                "C15.rot-hash", pa.qual, "table items are read at the digest size they were written with (after the 4-byte flags), only when the count is > 1", "; ".join(probs), "", A.loc(DC, pa.node))
     e2 = ctx.own(DC, "RotMetaEcc", "export")
@@ -660,37 +673,37 @@ def concat_seq(ctx, cls: ClassInfo, mname: str, depth: int = 0, owner_after: Opt
             break
     if fn is None:
         raise AnalysisError(f"C15: {cls.name}.{mname} not found")
-    var = None
-    seq: List[ast.expr] = []
-    for st in A.body_of(fn.node):
-        if isinstance(st, ast.Expr) and isinstance(st.value, ast.Constant):
-            continue
-        if isinstance(st, ast.Assign) and len(st.targets) == 1 and isinstance(st.targets[0], ast.Name) and var in (None, st.targets[0].id) and not seq:
-            var = st.targets[0].id
-            seq = [st.value]
-        elif isinstance(st, ast.AugAssign) and isinstance(st.op, ast.Add) and norm(st.target) == var:
-            seq.append(st.value)
-        elif isinstance(st, ast.Return) and st.value is not None and norm(st.value) == var:
-            break
-        else:
-            raise AnalysisError(f"C15: {fn.qual} is not a straight-line concatenation (statement `{norm(st)[:80]}`)")
-
-    def flat(e: ast.expr) -> List[ast.expr]:
-        if isinstance(e, ast.BinOp) and isinstance(e.op, ast.Add):
-            return flat(e.left) + flat(e.right)
-        return [e]
+    from ..engines import bytelayout
+    lay = bytelayout.Layout(lambda e: ctx.prog.fold(e, fn.module, fn.cls), fn.node)
+    res = lay.run([s for s in A.body_of(fn.node)])
+    if res is None:
+        raise AnalysisError(f"C15: {fn.qual} does not return a bytes concatenation the layout engine understands")
     out: List[str] = []
-    for e in [x for s in seq for x in flat(s)]:
-        t = norm(e)
-        if t == "self._get_common_data()":
+    for f in res:
+        if f.kind == "bytes" and f.src == "self._get_common_data()":
             out += concat_seq(ctx, cls, "_get_common_data", depth + 1)
-        elif t == f"super().{mname}()":
+        elif f.kind == "bytes" and f.src == f"super().{mname}()":
             out += concat_seq(ctx, cls, mname, depth + 1, owner_after=owner)
-        elif isinstance(e, ast.Call) and A.call_name(e) == "pack" and len(e.args) == 2:
-            out.append(f"{ctx.prog.fold(e.args[0], fn.module)}:{canon(e.args[1])}")
+        elif f.kind == "int":
+            code = {1: "B", 2: "H", 4: "L", 8: "Q"}.get(f.size, "?")
+            out.append(f"{'<' if f.order == 'little' else '>'}{code}:{_strip_self(f.src)}")
+        elif f.kind == "bytes" and f.size is not None and f.code in ("s", "p"):
+            out.append(f"<{f.size}{f.code}:{_strip_self(f.src)}")
+        elif f.kind == "bytes":
+            t = f.src
+            out.append(_strip_self(t[:-len('.export()')]) + ".export()" if t.endswith(".export()") else _strip_self(t))
+        elif f.kind in ("const", "zeros") and not f.size:
+            continue
         else:
-            out.append(canon(e) if not t.endswith(".export()") else canon(e) + ".export()")
+            out.append(repr(f.desc()))
     return out
+
+
+def _strip_self(t: str) -> str:
+    m = re.fullmatch(r"self\.(\w+\(\))", t)
+    if m:
+        return m.group(1)
+    return t[5:] if t.startswith("self.") else t
 
 
 def rule_response(ctx) -> None:
@@ -757,23 +770,21 @@ def rule_dac(ctx) -> None:
     chk, prog = ctx.chk, ctx.prog
     cls = ctx.cls(DAC, "DebugAuthenticationChallenge")
     ex, pa = ctx.own(DAC, "DebugAuthenticationChallenge", "export"), ctx.own(DAC, "DebugAuthenticationChallenge", "parse")
-    # export sequence
+    # export sequence from the byte layout (independent of how the bytes are assembled)
+    from ..engines import bytelayout
+    nf = bytelayout.Layout(lambda e: prog.fold(e, ex.module, ex.cls), ex.node).run(A.body_of(ex.node))
+    if nf is None:
+        raise AnalysisError("C15.dac-wire: export layout not understood")
     W: List[str] = []
-    for st in A.body_of(ex.node):
-        v = st.value if isinstance(st, (ast.Assign, ast.AugAssign)) else None
-        if v is None:
+    for f in nf:
+        if f.kind == "int":
+            W.append(f"{ {1: 'B', 2: 'H', 4: 'L', 8: 'Q'}.get(f.size, '?')}:{_strip_self(f.src)}")
+        elif f.kind == "bytes":
+            W.append("s:" + _strip_self(f.src))
+        elif f.kind in ("const", "zeros") and not f.size:
             continue
-        if isinstance(v, ast.Call) and A.call_name(v) == "pack":
-            fmt = prog.fold(v.args[0], ex.module)
-            args = v.args[1:]
-            if len(args) == 1 and isinstance(args[0], ast.Starred) and isinstance(args[0].value, (ast.List, ast.Tuple)):
-                args = args[0].value.elts
-            its = items_of(fmt)
-            if len(its) != len(args):
-                chk.bad("C15.dac-wire", ex.qual, f"pack({fmt!r}) with {len(args)} values", "arity", A.loc(DAC, v))
-            W += [f"{c}:{canon(a)}" for (c, _s), a in zip(its, args)]
         else:
-            W.append("s:" + canon(v))
+            W.append(repr(f.desc()))
     ups = _unpack_targets(pa)
     if len(ups) != 2:
         raise AnalysisError("C15.dac-wire: head/tail unpack of DebugAuthenticationChallenge.parse not found")
